@@ -846,4 +846,177 @@ theorem rsim_peerData {st : State} {r : Recv} (h : RInv (rview st) r)
                 exact hi2
       · exact ⟨_, rfl, rinv_settle hbase hnd hfl rfl rfl⟩
 
+
+/-! ### one operation, a whole run (jointly with the send side, which provides the
+distinctness of stream ids) -/
+
+theorem rsim_peer {st : State} {m : Send} {r : Recv} (hs : SInv (view st) m) (h : RInv (rview st) r) (f : PFrame) :
+    ∃ r', Recv.run (r.peer f) ((Conn.peer st f).2.map Event.c) = .ok r' ∧ RInv (rview (Conn.peer st f).1) r' := by
+  cases f with
+  | settings vals => exact rsim_peerSettings h vals
+  | settingsAck => exact rsim_peerSettingsAck h
+  | windowUpdate id inc => exact rsim_peerWindowUpdate h hs.nodup id inc
+  | rst id code => exact rsim_peerRst h hs.nodup id code
+  | goaway last => exact rsim_peerGoAway hs h last
+  | headers id e => exact rsim_peerHeaders h hs.nodup id e
+  | data id len pad e => exact rsim_peerData h hs.nodup id len pad e
+
+theorem rsim_apply {st : State} {m : Send} {r : Recv} (hs : SInv (view st) m) (h : RInv (rview st) r)
+    (op : Op) (hok : op.ok) :
+    ∃ r', Recv.run r (opEvents op (apply st op).2) = .ok r' ∧ RInv (rview (apply st op).1) r' := by
+  cases op with
+  | openStream hl b k => exact rsim_openStream h hl b k hok
+  | feed id n => exact rsim_feed h hs.nodup id n
+  | write id => exact rsim_write h hs.nodup id
+  | cancel id => exact rsim_cancel h hs.nodup id
+  | read id n => exact rsim_read h hs.nodup id n
+  | close id => exact rsim_close h hs.nodup id
+  | peer f =>
+    obtain ⟨r', h1, h2⟩ := rsim_peer hs h f
+    refine ⟨r', ?_, h2⟩
+    simp only [opEvents, apply, List.singleton_append]
+    rw [recv_run_cons_p]
+    exact h1
+
+theorem joint_step {st : State} {m : Send} {r : Recv} (hs : SInv (view st) m) (h : RInv (rview st) r)
+    (op : Op) (hok : op.ok) :
+    ∃ m' r', Send.run m (if st.closed then [] else opEvents op (step st op).2) = .ok m' ∧
+      Recv.run r (if st.closed then [] else opEvents op (step st op).2) = .ok r' ∧
+      SInv (view (step st op).1) m' ∧ RInv (rview (step st op).1) r' := by
+  unfold step
+  cases hc : st.closed with
+  | true => simp only [if_true]; exact ⟨m, r, rfl, rfl, hs, h⟩
+  | false =>
+    simp only [Bool.false_eq_true, if_false]
+    obtain ⟨m1, a1, a2⟩ := sim_apply hs op hok
+    obtain ⟨r1, b1, b2⟩ := rsim_apply hs h op hok
+    split
+    · obtain ⟨m2, a3, a4⟩ := sim_resumePending a2
+      obtain ⟨r2, b3, b4⟩ := rsim_resumePending b2 (fun x y z hx => a2.pendOpen x y z hx)
+      refine ⟨m2, r2, ?_, ?_, a4, b4⟩
+      · rw [opEvents_append]; exact send_run_ok_append a1 a3
+      · rw [opEvents_append]; exact recv_run_ok_append b1 b3
+    · exact ⟨m1, r1, a1, b1, a2, b2⟩
+
+theorem joint_runFrom (ops : List Op) (hok : ∀ op ∈ ops, op.ok) :
+    ∀ {st : State} {m m0 : Send} {r r0 : Recv} {hist : List Event},
+    Send.run m0 hist = .ok m → Recv.run r0 hist = .ok r → SInv (view st) m → RInv (rview st) r →
+    ∃ m' r', Send.run m0 (runFrom st hist ops).2 = .ok m' ∧ Recv.run r0 (runFrom st hist ops).2 = .ok r' ∧
+      SInv (view (runFrom st hist ops).1) m' ∧ RInv (rview (runFrom st hist ops).1) r' := by
+  induction ops with
+  | nil => intro st m m0 r r0 hist h1 h2 h3 h4; exact ⟨m, r, h1, h2, h3, h4⟩
+  | cons op rest ih =>
+    intro st m m0 r r0 hist h1 h2 h3 h4
+    unfold runFrom
+    obtain ⟨m1, r1, a1, a2, a3, a4⟩ := joint_step h3 h4 op (hok op List.mem_cons_self)
+    exact ih (fun o ho => hok o (List.mem_cons_of_mem _ ho)) (send_run_ok_append h1 a1)
+      (recv_run_ok_append h2 a2) a3 a4
+
+
+/-! ### the initial state -/
+
+/-- SETTINGS_INITIAL_WINDOW_SIZE as advertised in the connection preface -/
+def advertisedInitWin (cfg : Cfg) : Nat :=
+  match lastSetting (initialSettings cfg) sInitialWindowSize with
+  | some v => v
+  | none => 65535
+
+theorem lastSetting_default (mhl : Nat) :
+    lastSetting ([(sEnablePush, 0), (sInitialWindowSize, 4194304)] ++
+      (if mhl = 0 then [] else [(sMaxHeaderListSize, mhl)])) sInitialWindowSize = some 4194304 := by
+  unfold lastSetting
+  split <;> simp [sEnablePush, sInitialWindowSize, sMaxHeaderListSize]
+
+theorem advertised_le (cfg : Cfg) (hfix : cfg.fixes = Fixes.all) (hok : cfg.ok) :
+    ((advertisedInitWin cfg : Nat) : Int) ≤ streamInflow0 cfg ∧ InflowOK ⟨streamInflow0 cfg, 0⟩ ∧
+    advertisedInitWin cfg ≤ 2147483647 := by
+  have hsi : cfg.fixes.streamInflow = true := by rw [hfix]; rfl
+  unfold advertisedInitWin streamInflow0 initialSettings
+  rw [hsi]
+  simp only [if_true]
+  cases he : cfg.settings.isEmpty with
+  | true =>
+    have hnil : cfg.settings = [] := by simpa using he
+    simp only [if_true, lastSetting_default, hnil]
+    have : lastSetting ([] : List (Nat × Nat)) sInitialWindowSize = none := rfl
+    rw [this]
+    simp only [transportDefaultStreamFlow]
+    exact ⟨by omega, ⟨by simp, by simp, by simp⟩, by omega⟩
+  | false =>
+    simp only [Bool.false_eq_true, if_false]
+    cases hl : lastSetting cfg.settings sInitialWindowSize with
+    | none =>
+      simp only [transportDefaultStreamFlow]
+      exact ⟨by omega, ⟨by simp, by simp, by simp⟩, by omega⟩
+    | some v =>
+      have hv := hok.1 v hl
+      have hw : wrap32 (v : Int) = v := wrap32_of_in32 (by unfold In32; omega)
+      simp only [hw]
+      exact ⟨Int.le_refl _, ⟨by simp only; omega, by simp, by simp only; omega⟩, hv⟩
+
+theorem rpreface_run (cfg : Cfg) (hfix : cfg.fixes = Fixes.all) (hok : cfg.ok) :
+    Recv.run Recv.init ((newConn cfg).2.map Event.c) =
+      .ok { initWin := advertisedInitWin cfg, connWin := 65535 + connFlowAdvertised cfg.connFlow, lastId := 0, streams := [] } := by
+  have hadv := (advertised_le cfg hfix hok).2.2
+  have hcf := hok.2
+  have hcf1 : 1 ≤ connFlowAdvertised cfg.connFlow := by
+    unfold connFlowAdvertised transportDefaultConnFlow; split <;> omega
+  simp only [newConn, List.map_cons, List.cons_append, List.nil_append]
+  -- SETTINGS
+  have h1 : Recv.init.client (Frame.settings (initialSettings cfg)) =
+      .ok { initWin := advertisedInitWin cfg, connWin := 65535, lastId := 0, streams := [] } := by
+    unfold advertisedInitWin at hadv ⊢
+    simp only [Recv.client, Recv.init]
+    cases hl : lastSetting (initialSettings cfg) sInitialWindowSize with
+    | none => rfl
+    | some v =>
+      rw [hl] at hadv
+      simp only at hadv
+      have : ¬ v > 2147483647 := by omega
+      simp [this]
+  rw [recv_run_cons_c h1]
+  -- the connection-level WINDOW_UPDATE
+  have h2 : ({ initWin := advertisedInitWin cfg, connWin := 65535, lastId := 0, streams := [] } : Recv).client
+      (Frame.windowUpdate 0 (connFlowAdvertised cfg.connFlow)) =
+      .ok { initWin := advertisedInitWin cfg, connWin := 65535 + connFlowAdvertised cfg.connFlow, lastId := 0, streams := [] } := by
+    have a1 : ¬ (connFlowAdvertised cfg.connFlow < 1 ∨ connFlowAdvertised cfg.connFlow > Monitor.maxWindow) := by
+      unfold Monitor.maxWindow; omega
+    have a2 : ¬ (65535 + connFlowAdvertised cfg.connFlow > Monitor.maxWindow) := by
+      unfold Monitor.maxWindow; omega
+    simp [Recv.client, a1, a2]
+  rw [recv_run_cons_c h2]
+  -- PRIORITY frames are not the receive side's business
+  generalize cfg.prio = l
+  induction l with
+  | nil => rfl
+  | cons a l ih =>
+    simp only [List.filter]
+    split
+    · simp only [List.map_cons]
+      rw [recv_run_cons_c (m' := _) rfl]
+      exact ih
+    · exact ih
+
+theorem rinv_init (cfg : Cfg) (hfix : cfg.fixes = Fixes.all) (hok : cfg.ok) :
+    RInv (rview (newConn cfg).1)
+      { initWin := advertisedInitWin cfg, connWin := 65535 + connFlowAdvertised cfg.connFlow, lastId := 0, streams := [] } := by
+  obtain ⟨h1, h2, _⟩ := advertised_le cfg hfix hok
+  have hcf := hok.2
+  have hcf1 : 1 ≤ connFlowAdvertised cfg.connFlow := by
+    unfold connFlowAdvertised transportDefaultConnFlow; split <;> omega
+  have hci : connInflowInit cfg.connFlow = connFlowAdvertised cfg.connFlow + 65535 := by
+    unfold connInflowInit
+    have w1 : wrap32 (connFlowAdvertised cfg.connFlow) = connFlowAdvertised cfg.connFlow :=
+      wrap32_of_in32 (by unfold In32; omega)
+    rw [w1]
+    exact wrap32_of_in32 (by unfold In32; omega)
+  have hn := nextStreamID0_odd cfg hfix
+  exact { connWin := by simp only [rview, newConn, hci]; omega,
+          connOK := ⟨by simp only [rview, newConn, hci]; omega, by simp [rview, newConn],
+                     by simp only [rview, newConn, hci]; omega⟩,
+          initWin := h1, initOK := h2,
+          lastId := by simp only [rview, newConn]; omega,
+          ids := (by intro e he; cases he),
+          rel := RRels.nil }
+
 end Req.Lemmas.C06
